@@ -123,6 +123,19 @@ def do_case(case):
     cb = inf.create_bootstrap()
     r['bootstrap_observation_changed'] = bool(list(cb.observation) != list(inf.observation))
     r['truth'] = case['truth']
+    # merging into / from a PERFECT fit: noise-free moments, one run started at the generating parameters (loss 0.0)
+    nb_ = len(inf.bounds)
+    pc = dict(case, x0=list(case['truth'][:nb_]), x0_reversed=False, n_runs=1, loss='l2')
+    pf, *_ = mk_inf(pc)
+    pf.run()
+    oth, *_ = mk_inf(dict(case, seed=case['seed'] + 2, loss='l2', x0=None))
+    oth.run()
+    bf, ot = summary(pf), summary(oth)
+    pf.add_run(oth)
+    pf2, *_ = mk_inf(pc)
+    pf2.run()
+    oth.add_run(pf2)
+    r['perfect'] = {'before': bf, 'other': ot, 'merged': summary(pf), 'merged_reverse': summary(oth)}
     return r
 
 
